@@ -443,6 +443,46 @@ func checkC05(c *ctx) {
 		c.Violation("C05 doc-number maps returned by a merge belong to the caller\n"+bad, false)
 		return
 	}
+	// byte-identical documents in different inputs (a document indexed twice, both copies alive), with
+	// inputs that are rewritten (a deletion) and inputs that are copied (none) in between
+	{
+		mkd := func(id, val string) zh.Doc {
+			return zh.Doc{Fields: []zh.Field{zh.IDField(id), {Name: "body", Typ: 't', Stored: true, Val: []byte(val), Len: 1, Toks: []zh.Tok{{Term: val, Freq: 1}}}}}
+		}
+		x := mkd("same", "identical-content")
+		shapes := [][]zh.Batch{
+			{{mkd("q", "qq"), x}, {mkd("r", "rr"), mkd("s", "ss")}, {mkd("u", "uu"), x, mkd("t", "tt")}, {mkd("v", "vv")}},
+			{{x, mkd("q", "qq")}, {x}, {mkd("u", "uu"), x}},
+		}
+		dropsOf := [][][]uint64{{{0}, nil, {0}, nil}, {{1}, nil, {0}}}
+		for si, bs := range shapes {
+			var ins []*segEnt
+			var nilBM []bool
+			for bi, b := range bs {
+				e, err := newBuilt(c, b, 1026, bi%2 == 1)
+				must(err)
+				ins = append(ins, e)
+				nilBM = append(nilBM, dropsOf[si][bi] == nil)
+			}
+			mc := &mergeCase{ins: ins, drops: dropsOf[si], nilBM: nilBM, mode: 1026}
+			c.Case(fmt.Sprintf("identical-documents-%d", si), true)
+			c.Count("merges_with_identical_documents_in_several_inputs")
+			bad, r, spec := mergeVerdict(c, mc, parts, true)
+			if bad == "" && r.seg != nil {
+				bad = storedAPIFromSpec(c, r.seg, spec)
+			}
+			if r != nil && r.seg != nil {
+				r.seg.Close()
+			}
+			for _, e := range ins {
+				e.close()
+			}
+			if bad != "" {
+				c.Violation(fmt.Sprintf("C05 merge of inputs that contain byte-identical live documents (same _id, same stored value), rewritten inputs (one deletion) and copied inputs (none) alternating\n%s\n%s", clip(bad), clip(mc.describe())), false)
+				return
+			}
+		}
+	}
 	// inputs whose documents carry nothing but _id (no other field, no composite field): nothing, one
 	// document or everything survives
 	for _, shape := range []string{"all deleted", "one survivor", "nothing deleted"} {
